@@ -70,3 +70,46 @@ pub proof fn lemma_cons_elem(x: Unifiable, tail: Unifiable, num: usize)
             == node_count(tail) + 1,
 {
 }
+// The list holding exactly the elements q[k..] (no tail variable): the value every
+// engine-built list must have (C15), as a spec-level term.
+pub open spec fn list_of(q: Seq<Unifiable>, k: int) -> Unifiable
+    decreases q.len() - k,
+{
+    if k >= q.len() || k < 0 { empty_node() }
+    else {
+        Unifiable::SLinkedList{term: Box::new(q[k]), next: Box::new(list_of(q, k + 1)),
+                               count: (q.len() - k) as usize, tail_var: false}
+    }
+}
+
+pub proof fn lemma_list_of(q: Seq<Unifiable>, k: int)
+    requires no_nil(q), 0 <= k <= q.len(), q.len() <= usize::MAX,
+    ensures
+        wf_list(list_of(q, k)),
+        elems(list_of(q, k)) == q.subrange(k, q.len() as int),
+        tail_of(list_of(q, k)) is None,
+        node_count(list_of(q, k)) == q.len() - k,
+    decreases q.len() - k,
+{
+    if k < q.len() {
+        lemma_list_of(q, k + 1);
+        assert(q.subrange(k, q.len() as int) =~= seq![q[k]] + q.subrange(k + 1, q.len() as int));
+    } else {
+        assert(q.subrange(k, q.len() as int) =~= Seq::<Unifiable>::empty());
+    }
+}
+
+// pushing the Nil sentinel after q gives a vector whose effective elements are q
+pub proof fn lemma_eff_sentinel(q: Seq<Unifiable>)
+    requires q.len() >= 1, no_nil(q),
+    ensures eff(q.push(Unifiable::Nil)) == q, exact_elems_pre(q.push(Unifiable::Nil)), mll_pre(false, q.push(Unifiable::Nil)),
+{
+    let s = q.push(Unifiable::Nil);
+    assert(s.subrange(0, s.len() - 1) =~= q);
+}
+
+pub proof fn lemma_eff_empty()
+    ensures eff(Seq::<Unifiable>::empty()) == Seq::<Unifiable>::empty(),
+            exact_elems_pre(Seq::<Unifiable>::empty()), mll_pre(false, Seq::<Unifiable>::empty()),
+{
+}
